@@ -18,8 +18,8 @@ PI = F(314159265358979323846, 10 ** 20)
 CGS = {
     "mm": F(1, 10), "cm": F(1), "m": F(100), "km": F(10 ** 5), "g": F(1), "kg": F(1000), "s": F(1), "min": F(60), "h": F(3600),
     "K": F(1), "erg": F(1), "J": F(10 ** 7), "W": F(10 ** 7),
-    "au": F(1495978707, 100) * 10 ** 8,            # 149 597 870 700 m exactly (IAU 2012)
-    "pc": F(1495978707, 100) * 10 ** 8 * 648000 / PI,  # 648000/pi au (IAU 2015)
+    "au": F(1495978707, 100) * 10 ** 6,            # 149 597 870 700 m exactly (IAU 2012)
+    "pc": F(1495978707, 100) * 10 ** 6 * 648000 / PI,  # 648000/pi au (IAU 2015)
     "yr": F(31557600),                                # Julian year 365.25 d
     "M_sun": F(19884, 10 ** 4) * 10 ** 33, "M_earth": F(59722, 10 ** 4) * 10 ** 27, "M_jup": F(18982, 10 ** 4) * 10 ** 30,
     "R_sun": F(6957, 10 ** 3) * 10 ** 10, "R_earth": F(63781, 10 ** 4) * 10 ** 8, "R_jup": F(71492, 10 ** 4) * 10 ** 9,
